@@ -8,7 +8,7 @@ MergeAlphabet ==
     Op("CurveTo", <<1, 2, 3>>), Op("CurveTo", <<2, 3, 3>>), Op("CurveTo", <<3, 2, 2>>), Op("CurveTo", <<2, 2, 3>>), Op("CurveTo", <<3, 3, 2>>),
     Op("Rect", <<2, 3>>), Op("EndPath", <<>>),
     Op("WordSpacing", <<1>>), Op("CharSpacing", <<1>>), Op("TextNewline", <<>>), Op("TextDraw", <<1>>),
-    Op("Leading", <<0 - 1>>), Op("Leading", <<0 - 2>>), Op("Leading", <<7>>), Op("MoveText", <<1, 2>>),
+    Op("Leading", <<0 - 1>>), Op("Leading", <<0 - 2>>), Op("Leading", <<2>>), Op("Leading", <<7>>), Op("MoveText", <<1, 2>>),
     Op("Shade", <<1>>), Op("RenderingIntent", <<1>>), Op("Fill", <<1>>) }
 
 \* operations that read or move the current point (the v / y curve forms depend on it)
